@@ -114,6 +114,12 @@ class Sched:
             return
         nxt = self._choose(me, True)
         if nxt is None:
+            # the last runnable thread exited while others still wait: the run can never finish
+            if any(not t.done for t in self.ts.values()):
+                waiting = {t.name: (t.cond is not None) for t in self.ts.values() if not t.done}
+                self.deadlock = "thread %s exited and no thread is runnable; waiting=%r" % (me.name, waiting)
+                for t in self.ts.values():
+                    t.sem.release()
             return
         self.cur = nxt
         nxt.sem.release()
